@@ -13,6 +13,8 @@ pub mod c13;
 pub mod c14;
 pub mod c15;
 pub mod c16;
+pub mod c17;
+pub mod c18;
 pub mod c19;
 
 use crate::run::Tier;
@@ -33,6 +35,8 @@ pub fn dispatch(id: &str, tier: Tier) -> Option<i32> {
         "C14" => Some(c14::run(tier)),
         "C15" => Some(c15::run(tier)),
         "C16" => Some(c16::run(tier)),
+        "C17" => Some(c17::run(tier)),
+        "C18" => Some(c18::run(tier)),
         "C19" => Some(c19::run(tier)),
         _ => None,
     }
@@ -51,6 +55,24 @@ pub fn sub(args: &[String]) -> i32 {
             };
             println!("{} {}", d, c10::corpus_e2e_digest(seed, n / 4));
             0
+        }
+        Some("c18-cold") => {
+            let seed: u64 = args.get(1).and_then(|s| s.parse().ok()).unwrap_or(1);
+            let n: u64 = args.get(2).and_then(|s| s.parse().ok()).unwrap_or(64);
+            let th: usize = args.get(3).and_then(|s| s.parse().ok()).unwrap_or(16);
+            c18::sub_cold(seed, n, th)
+        }
+        Some("c18-digest") => {
+            let seed: u64 = args.get(1).and_then(|s| s.parse().ok()).unwrap_or(1);
+            let n: u64 = args.get(2).and_then(|s| s.parse().ok()).unwrap_or(2000);
+            c18::sub_digest(seed, n)
+        }
+        Some("c18-threads") => {
+            let seed: u64 = args.get(1).and_then(|s| s.parse().ok()).unwrap_or(1);
+            let n: u64 = args.get(2).and_then(|s| s.parse().ok()).unwrap_or(24);
+            let th: usize = args.get(3).and_then(|s| s.parse().ok()).unwrap_or(4);
+            let rounds: usize = args.get(4).and_then(|s| s.parse().ok()).unwrap_or(1);
+            c18::sub_threads(seed, n, th, rounds)
         }
         _ => {
             eprintln!("unknown sub-command {:?}", args);
